@@ -61,9 +61,11 @@ def run(rep, tier, seed, replay, config=None, post=None):
     if cfg is None:
         print("unknown property %s" % prop)
         return 2
+    parts = cfg.get("parts") or [cfg]
     cov = rep.coverage
-    cov["checker_cmd"] = "cd /verif/coq && make Properties/%s.vo Run/%s.vo (coqc 8.16.1), then coqc on generated Cases_*.v" % (prop, cfg["run"])
-    cov["trusted_base"] = list(vlib.TRUSTED_BASE)
+    cov["checker_cmd"] = "cd /verif/coq && make Properties/%s.vo %s (coqc 8.16.1), then coqc on generated Cases_*.v" % (
+        prop, " ".join("Run/%s.vo" % p["run"] for p in parts))
+    cov["trusted_base"] = list(vlib.TRUSTED_BASE) + list(cfg.get("trusted_extra", []))
     broken_names = []
 
     # 1. facts
@@ -78,10 +80,35 @@ def run(rep, tier, seed, replay, config=None, post=None):
         rep.violation("forbidden-tokens", {"what": "development contains forbidden declarations", "hits": toks}, found_input=False)
     obligations, discharged, assumptions, broken = vlib.check_properties_file(prop)
     cov["obligations"], cov["discharged"] = obligations, discharged
-    rep.assumptions = assumptions + [
+    rep.assumptions = assumptions + list(cfg.get("assumptions", [])) + [
         "idealised primitives appear as explicit premises / section hypotheses of the theorems (see DESIGN.md section 7)"]
     if broken:
         broken_names.append("%s (%s)" % (broken.get("statement"), broken.get("file")))
+    cov["evaluations"] = 0
+    cov["distinct_nontrivial"] = 0
+    cov["rule"] = cfg["rule"]
+    cov["distribution"] = {}
+    cov["samples"] = []
+    cov["traces_validated_against_impl"] = 0
+    cov["mismatches"] = 0
+    cov["spec_violations"] = 0
+    all_cases = []
+    for part in parts:
+        v = run_part(rep, part, prop, tier, seed, replay, cov, broken_names)
+        all_cases += v[1]
+    # a failing input that is not a recorded known finding
+    any_viol = any(found for (_, _, found) in rep.violations)
+    if broken and not any_viol:
+        rep.violation("proof-%s" % (broken.get("statement") or "build"),
+                      {"what": "a proof obligation no longer checks and the search found no failing input",
+                       "no_longer_checks": broken}, found_input=False)
+    if post:
+        post(rep, all_cases)
+    return rep.finish()
+
+
+def run_part(rep, cfg, prop, tier, seed, replay, cov, broken_names):
+    """one driver family + one Run module; returns (found_spec_violation, cases)"""
     # 3. correspondence
     okr, outr = vlib.coq_make(["Run/%s.vo" % cfg["run"]])
     cases = []
@@ -91,12 +118,12 @@ def run(rep, tier, seed, replay, config=None, post=None):
         rep.violation("model-build", {"what": "the executable model no longer compiles against Extracted.v",
                                       "no_longer_checks": "coq/Run/%s.v" % cfg["run"], "error": err, "output_tail": outr[-2000:]},
                       found_input=False)
-    for pkg, hdir in cfg["drivers"]:
+    for pkg, hdir in cfg.get("drivers", []):
         out_path = os.path.join(vlib.BUILD, "%s_%s.jsonl" % (prop, hdir))
         if os.path.exists(out_path):
             os.remove(out_path)
         t0 = time.time()
-        okd, outd = vlib.run_go_driver(pkg, hdir, prop, seed, tier, out_path,
+        okd, outd = vlib.run_go_driver(pkg, hdir, cfg.get("driver_prop", prop), seed, tier, out_path,
                                        extra_env=cfg.get("env"), race=cfg.get("race", False),
                                        timeout=cfg.get("timeout", 1500))
         cov.setdefault("driver_wall_s", {})[hdir] = round(time.time() - t0, 1)
@@ -107,45 +134,61 @@ def run(rep, tier, seed, replay, config=None, post=None):
         cases += [g for g in got if g.get("kind") != "stats"]
         if not okd:
             driver_failed = outd[-4000:]
-    cov["evaluations"] = len(cases)
-    cov["distinct_nontrivial"] = vlib.distinct_nontrivial(cases)
-    cov["rule"] = cfg["rule"]
-    cov["distribution"] = vlib.distribution(cases)
-    cov["samples"] = vlib.sample_cases(cases)
-    cov["traces_validated_against_impl"] = 0
+    for fn in cfg.get("pydrivers", []):
+        t0 = time.time()
+        try:
+            cases += fn(prop, seed, tier)
+        except Exception as e:  # noqa
+            import traceback
+            driver_failed = "python driver %s failed: %s" % (getattr(fn, "__name__", fn), traceback.format_exc()[-3000:])
+        cov.setdefault("driver_wall_s", {})[getattr(fn, "__name__", "py")] = round(time.time() - t0, 1)
+    cov["evaluations"] += len(cases)
+    cov["distinct_nontrivial"] += vlib.distinct_nontrivial(cases)
+    for k, v in vlib.distribution(cases).items():
+        cov["distribution"][k] = cov["distribution"].get(k, 0) + v
+    cov["samples"] += vlib.sample_cases(cases, 3)
 
     if replay:
         rp = json.load(open(replay))
         want = rp.get("case", {}).get("coq")
-        cases = [c for c in cases if c["coq"] == want] or cases[:0]
+        cases = [c for c in cases if c.get("coq") == want] or cases[:0]
         print("replay: %d matching case(s) regenerated from seed %s" % (len(cases), seed))
 
     mism, viol, errs = ([], [], [])
     if okr and cases:
         evalable = [c for c in cases if c.get("coq")]
         mism, viol, errs = vlib.coq_eval_cases(cfg["run"], evalable, shard_size=cfg.get("shard", 400),
-                                               extra_header=cfg.get("header", ""))
-        cov["traces_validated_against_impl"] = len(evalable) - len(mism) if not errs else 0
+                                               extra_header=cfg.get("header", ""), case_type=cfg.get("case_type", "case"))
+        if not errs:
+            cov["traces_validated_against_impl"] += len(evalable) - len(mism)
         for e in errs:
             rep.violation("case-eval", {"what": "coqc failed on a generated case file", "error": e,
                                         "no_longer_checks": "correspondence Run/%s" % cfg["run"]}, found_input=False)
         # concrete failing inputs: the implementation's own output violates the specification
-        for i in viol[:8]:
+        shown = 0
+        for i in viol:
             c = evalable[i]
+            if shown >= 8 and not c.get("sig"):
+                continue
+            shown += 1
             rep.violation("spec-%s-%d" % (c.get("class", "case").replace("/", "_"), i),
                           {"what": "implementation output violates the property's specification (Run/%s.spec_ok = false)" % cfg["run"],
                            "case": c, "model_agrees": i not in mism,
                            "broken_obligations": broken_names},
                           found_input=True, signature=c.get("sig"))
         only_mism = [i for i in mism if i not in set(viol)]
-        for i in only_mism[:5]:
+        shown = 0
+        for i in only_mism:
             c = evalable[i]
+            if shown >= 5 and not c.get("sig"):
+                continue
+            shown += 1
             rep.violation("corr-%s-%d" % (c.get("class", "case").replace("/", "_"), i),
                           {"what": "model and implementation disagree; the specification monitor found no violated clause on this case",
                            "no_longer_checks": "correspondence Run/%s.agrees" % cfg["run"], "case": c},
                           found_input=False, signature=c.get("sig"))
-        cov["mismatches"] = len(mism)
-        cov["spec_violations"] = len(viol)
+        cov["mismatches"] += len(mism)
+        cov["spec_violations"] += len(viol)
     # driver-level findings (cases the driver itself judged, e.g. crashes/hangs)
     for c in cases:
         if c.get("violation"):
@@ -153,14 +196,8 @@ def run(rep, tier, seed, replay, config=None, post=None):
                           {"what": c["violation"], "case": c}, found_input=True, signature=c.get("sig"))
     if driver_failed is not None:
         rep.violation("driver", {"what": "the implementation driver did not complete (panic, failure or timeout)",
-                                 "no_longer_checks": "correspondence driver %s" % (cfg["drivers"],),
+                                 "no_longer_checks": "correspondence driver %s" % (cfg.get("drivers"),),
                                  "output_tail": driver_failed}, found_input=False)
     if not cases and driver_failed is None:
         rep.violation("no-cases", {"what": "driver produced no cases"}, found_input=False)
-    if broken and not viol:
-        rep.violation("proof-%s" % (broken.get("statement") or "build"),
-                      {"what": "a proof obligation no longer checks and the search found no failing input",
-                       "no_longer_checks": broken}, found_input=False)
-    if post:
-        post(rep, cases)
-    return rep.finish()
+    return (len(viol) > 0 or any(c.get("violation") for c in cases)), cases
